@@ -33,6 +33,7 @@ fn nested_with_inner(l: &Bdd, r: &Bdd, mask: u64, outer: &str, inner: &str) -> O
 
 #[allow(deprecated)]
 pub fn run(key: &str, a: &[String], out: &mut Out) {
+    out.begin(key, a);
     match key {
         "C03.nested" => {
             let (l, r) = (Bdd::from_string(&a[3]), Bdd::from_string(&a[4]));
